@@ -250,6 +250,15 @@ def rule_a85(ctx, f):
         # dominated by an array equality test against zeros
         eqs = [x for x, tt in F.calls(eb) if last_seg(F.callee_name(tt)) in ("eq", "ne") and "[u8; 4]" in (tt.get("callee_full", "") + tt.get("resolved_full", ""))]
         okz = okz and inloop and any(cfg.dominates(x, bi) for x in eqs)
+        # the loop that contains the `z` branch runs over complete four-byte groups only (a zero-padded final group of 1-3 bytes is not `z`)
+        full = False
+        for head, blk in loops.items():
+            if bi in blk:
+                for nb, nt in F.calls(eb):
+                    if nb in blk and last_seg(F.callee_name(nt)) == "next" and "ChunksExact" in (nt.get("callee_full", "") + str(nt.get("self_ty"))):
+                        full = True
+        chunk4 = any(last_seg(F.callee_name(ct)) == "chunks_exact" and F.const_int(ct["args"][1]) == 4 for cb_, ct in F.calls(eb) if len(ct["args"]) > 1)
+        okz = okz and full and chunk4
     ctx.check(okz, "C16-SIB-a85", "enc::encode_85#z", "`z` is emitted outside the full-group loop or without an all-zero test", eb["span"], detail="'z' only for a full [0;4] group")
     tail = [(bi, t) for bi, t in F.calls(eb) if last_seg(F.callee_name(t)) == "extend_from_slice" and any(F.const_bytes(a) == "~>" for a in t["args"])]
     if not tail:
